@@ -22,10 +22,48 @@ OUT OF OR IN CONNECTION WITH THE SOFTWARE OR THE USE OR OTHER DEALINGS IN
 THE SOFTWARE.
 """
 
-import functools
-import shlex
 
 from pytools import UniqueNameGenerator
+
+
+def split_outside_quotes(line, escape_char=None):
+    """Split *line* at whitespace that is not inside a quoted string.
+
+    Unlike :func:`shlex.split`, a quoted string may start in the middle of a
+    word (as in ``f('a b')``) and is never broken up. *escape_char*, if given,
+    makes the following character inside a quoted string literal (so that it
+    cannot close the string).
+    """
+    tokens = []
+    token = ""
+    quote = None
+    escaped = False
+    for char in line:
+        if quote is not None:
+            token += char
+            if escaped:
+                escaped = False
+            elif char == escape_char:
+                escaped = True
+            elif char == quote:
+                quote = None
+        elif char in "'\"":
+            token += char
+            quote = char
+        elif char in " \t\r\n":
+            if token:
+                tokens.append(token)
+                token = ""
+        else:
+            token += char
+
+    if quote is not None:
+        raise ValueError("No closing quotation")
+
+    if token:
+        tokens.append(token)
+
+    return tokens
 
 
 def wrap_line_base(line, level=0, width=80, indentation="    ",
@@ -42,7 +80,7 @@ def wrap_line_base(line, level=0, width=80, indentation="    ",
     `lex_func` argument returns the list of tokens in the line.
     """
     if lex_func is None:
-        lex_func = functools.partial(shlex.split, posix=False)
+        lex_func = split_outside_quotes
 
     tokens = lex_func(line)
     resulting_lines = []
